@@ -108,6 +108,88 @@ async def run_seq(cls, dev, acts, ip, own_task=False):
     return out
 
 
+def run_aborts(out):
+    """a failure of the other kind: the device ABORTS the connection (a reboot) while it is being used or while it is idle.  Whatever the
+    operation and disconnect() do about it (raise or not), after disconnect() / after leaving the context the client is disconnected,
+    and it can connect again"""
+    async def one(cls, form):
+        ip = world.loopback_ip(12); dev = Dev(ip, 9957 if cls is SwitcherType1Api else 10000); await dev.listen(True)
+        api = cls(ip, "ab1c2d", "18"); log = []
+        async def op():
+            try: await asyncio.wait_for(api.get_state() if cls is SwitcherType1Api else api.get_shutter_state(), PATIENCE); return "returned"
+            except asyncio.TimeoutError: return "never-returned"
+            except Exception: return "raised"
+        async def bye():
+            try: await asyncio.wait_for(api.disconnect(), PATIENCE); return "returned"
+            except asyncio.TimeoutError: return "never-returned"
+            except Exception: return "raised"
+        try:
+            dev.policy = lambda n, d: world.ABORT
+            if form == "with":
+                try:
+                    async with api:
+                        log.append("inside: connected=%s, operation %s" % (api.connected, await op()))
+                        await settle(); raise KeyError("body")
+                except BaseException as e: log.append("left the context (%s)" % ("body's exception" if isinstance(e, KeyError) else "another exception"))
+            else:
+                await api.connect()
+                if form == "operation": log.append("operation %s" % await op())
+                else:           # the device aborts an idle connection: one byte from the client draws the reset
+                    api._writer.write(b"\0"); await settle(); await asyncio.sleep(0.05)
+                await settle(); r = await bye(); log.append("disconnect " + ("never returned" if r == "never-returned" else "done"))
+            await settle(); log.append("connected=%s" % api.connected)
+            dev.policy = lambda n, d: bytes(20); await api.connect(); log.append("again: connected=%s" % api.connected)
+            await bye(); log.append("connected=%s" % api.connected)
+        except Exception as e: log.append("unexpected " + type(e).__name__)
+        finally:
+            await dev.listen(False)
+        return "; ".join(log)
+    cases = [{"cls": c.__name__, "form": f} for c in (SwitcherType1Api, SwitcherType2Api) for f in ("operation", "idle", "with")]
+    by = {"SwitcherType1Api": SwitcherType1Api, "SwitcherType2Api": SwitcherType2Api}
+    async def go(): return [await one(by[c["cls"]], c["form"]) for c in cases]
+    io = asyncio.run(go())
+    want = {"operation": "operation raised; disconnect done; connected=False; again: connected=True; connected=False",
+            "idle": "disconnect done; connected=False; again: connected=True; connected=False",
+            "with": "inside: connected=True, operation raised; left the context (body's exception); connected=False; again: connected=True; connected=False"}
+    # which exception leaves the context when the connection was aborted inside it is not the property's subject: either is accepted
+    io = [i.replace("left the context (another exception)", "left the context (body's exception)") for i in io]
+    lib.differential(out, "the-device-aborts-the-connection", cases, io, None, [want[c["form"]] for c in cases],
+                     lambda c: "%s: the device aborts the connection (%s)" % (c["cls"], c["form"]), sample=lambda c: c, classify=lambda c, i: "abort/" + c["form"])
+
+
+def run_context_bodies(out):
+    """what the body of `async with api:` does with the connection - disconnects, reconnects, connects once more - does not change what leaving
+    the context means: the client is disconnected and the device holds no open connection of it"""
+    async def one(cls, body):
+        ip = world.loopback_ip(13); dev = Dev(ip, 9957 if cls is SwitcherType1Api else 10000); await dev.listen(True)
+        api = cls(ip, "ab1c2d", "18"); dev.open = 0; dev.eofs = 0
+        try:
+            try:
+                async with api:
+                    if "d" in body: await api.disconnect()
+                    if "c" in body: await api.connect()
+                    if "o" in body: await (api.control_device(Command.ON) if cls is SwitcherType1Api else api.stop())
+                    inside = api.connected
+                    if "x" in body: raise KeyError("body")
+            except KeyError: pass
+            await settle(); gc.collect(); await settle()
+            return "inside connected=%s; after: connected=%s, connections the device still holds: %d" % (inside, api.connected, dev.open)
+        except Exception as e: return "unexpected " + type(e).__name__
+        finally:
+            try: await asyncio.wait_for(api.disconnect(), PATIENCE)
+            except Exception: pass
+            await dev.listen(False)
+    bodies = ["d", "dc", "dco", "dcx", "c", "co", "dcdc", "ddc"]
+    cases = [{"cls": c.__name__, "body": b} for c in (SwitcherType1Api, SwitcherType2Api) for b in bodies]
+    by = {"SwitcherType1Api": SwitcherType1Api, "SwitcherType2Api": SwitcherType2Api}
+    async def go(): return [await asyncio.wait_for(one(by[c["cls"]], c["body"]), 60) for c in cases]
+    io = asyncio.run(go())
+    want = ["inside connected=%s; after: connected=False, connections the device still holds: 0" % (b != "d") for c in cases for b in [c["body"]]]
+    lib.differential(out, "context-bodies-that-disconnect-or-reconnect", cases, io, None, want,
+                     lambda c: "%s: async with api: body does %s" % (c["cls"], " ".join({"d": "disconnect", "c": "connect", "o": "an operation", "x": "raise"}[ch] for ch in c["body"])),
+                     sample=lambda c: c, classify=lambda c, i: "body/" + c["body"])
+
+
 NAMES = ["connect", "disconnect", "operation", "with", "with-body-raising-KeyError", "with-body-raising-TimeoutError",
          "with-body-raising-ConnectionResetError", "with-body-cancelled", "clock-jumps-ahead"]
 
@@ -223,10 +305,14 @@ def run(tier, rnd, out):
     seqs += [[(0, 0)] * n + [(0, 1), (2, 0), (1, 0)] for n in (4, 5, 6, 7, 9)] + [[(0, 0)] * 6 + [(3, 1)], [(3, 0)] * 6 + [(0, 1), (1, 0)]]       # many refusals in a row, then the device is back
     seqs += [[(0, 1), (1, 0), (2, 3), a] for a in alphabet] + [[(3, 1), (2, 3), a] for a in alphabet] + [[(0, 1), (2, 0), (1, 0), (2, 3), (2, 3), (0, 1), (2, 0), (1, 0)]]           # what follows a half-closed login, with and without a reconnect
     for cls in (SwitcherType1Api, SwitcherType2Api): run_sequences(out, "sequences", cls, seqs)
+    run_aborts(out)
+    run_context_bodies(out)
     out.exhaustive = True
     out.notes.append("exhaustive over all action sequences up to length %d for both classes" % (3 if tier == "quick" else 4))
 
 
 def replay(rp, out):
+    if "form" in (rp.get("input") or {}): return run_aborts(out)
+    if "body" in (rp.get("input") or {}): return run_context_bodies(out)
     c = rp["input"]; by = {"SwitcherType1Api": SwitcherType1Api, "SwitcherType2Api": SwitcherType2Api}
     run_sequences(out, rp.get("stream", "replay"), by[c["cls"]], [[tuple(a) for a in c["acts"]]])
